@@ -317,8 +317,11 @@ static char *_GD_InputCode(DIRFILE *D, const struct parser_state *restrict p,
 
   dtrace("%p, %p, %i, \"%s\"", D, p, me, token);
 
+  /* from Standards Version 10 on (or when not pedantic) ".z" is a
+   * representation suffix, not a namespace separator */
   code = _GD_BuildCode(D, me, p->ns, p->nsl, token,
-      p->pedantic && p->standards <= 5, NULL);
+      (p->pedantic && p->standards <= 5) |
+      ((!p->pedantic || p->standards >= 10) ? GD_CO_REPRZ : 0), NULL);
 
   dreturn("\"%s\"", code);
   return code;
